@@ -34,13 +34,19 @@ def gen_recipe(rng, size=None):
     # unique per node, sub-interface names per parent port); "prefix" = names that are prefixes of each other
     # (nic1/nic10, n1/n1-nic1, net/net1, v1/v10): elements are looked up by derived names, so equal names and
     # name prefixes are where a removal can hit a sibling
-    style = rng.choice(["plain", "short", "prefix", "prefix"])
+    # "clash" = the same names used across classes (a node, a component, a service and a link all called n1; services net /
+    # links net1): lookups filter by class, and the derived port / link names then collide in interesting ways
+    style = rng.choice(["plain", "short", "prefix", "prefix", "clash"])
     short = style != "plain"
-    NN = ["n1", "n1-nic1", "n10", "n1-nic10"] if style == "prefix" else ["n%d" % k for k in range(4)]
-    CN = ["nic1", "nic10", "nic100"] if style == "prefix" else ["nic0", "nic1", "nic2"]
-    VN = ["v1", "v10", "v100"] if style == "prefix" else ["v100", "v101", "v102"]
-    SN = ["net", "net1", "net10"] if style == "prefix" else ["s0", "s1", "s2"]
+    NN = ["n1", "n1-nic1", "n10", "n1-nic10"] if style in ("prefix", "clash") else ["n%d" % k for k in range(4)]
+    CN = ["nic1", "nic10", "nic100"] if style == "prefix" else ["n1", "n10", "n1-nic1"] if style == "clash" else ["nic0", "nic1", "nic2"]
+    VN = ["v1", "v10", "v100"] if style in ("prefix", "clash") else ["v100", "v101", "v102"]
+    SN = ["net", "net1", "net10"] if style == "prefix" else ["n1", "n10", "n1-nic1"] if style == "clash" else ["s0", "s1", "s2"]
+    LN = ["net", "n1", "n10", "net1", "l4", "l5"] if style == "clash" else ["l%d" % k for k in range(6)]
     r = []
+    if rng.random() < 0.3:
+        # caller-supplied node ids, prefix-related (a1 / a10 / a1-b / a1:c0 ...)
+        r.append(["opts", {"ids": True}])
     ifs = []      # symbolic interface refs: ["n", node, comp, idx] / ["c", node, comp, idx, child] / ["f", fac, idx] / ["w", sw, idx]
     nodes = []
     for k in range(size):
@@ -62,7 +68,7 @@ def gen_recipe(rng, size=None):
                         r.append(["child", nn, cn, p, chn, str(100 + ch)])
                         ifs.append(["c", nn, cn, p, chn])
     if rng.random() < 0.5:
-        nfi = rng.choice([1, 1, 2])
+        nfi = rng.choice([1, 1, 2, 3])
         r.append(["facility", "fac0", rng.choice(SITES), nfi])
         for p in range(nfi):
             ifs.append(["f", "fac0", p])
@@ -102,7 +108,7 @@ def gen_recipe(rng, size=None):
             else:
                 rest.append(x)
         free = rest
-        r.append(["link", "l%d" % ln, ends])
+        r.append(["link", LN[ln % len(LN)] if ln < len(LN) else "l%d" % ln, ends])
         ln += 1
     # reservation marks for prune
     marks = []
@@ -200,36 +206,53 @@ def resolve_if(b, ref):
     raise ValueError(ref)
 
 
+NODE_IDS = ["a1", "a10", "a1-b", "a1-b1", "a100"]
+
+
 def build(recipe):
     b = Built()
     t = b.t
+    ids = False
+    nidx = {}
+
+    def nid(kind, *parts):
+        """caller-supplied node id (prefix-related across elements) or None"""
+        if not ids:
+            return None
+        if kind == "node":
+            nidx.setdefault(parts[0], NODE_IDS[len(nidx) % len(NODE_IDS)] + ("x" * (len(nidx) // len(NODE_IDS))))
+            return nidx[parts[0]]
+        if kind == "comp":
+            return "%s:c%s" % (nidx[parts[0]], parts[1])
+        return "%s:%s" % (kind, ":".join(str(p) for p in parts))
     for st in recipe:
         k = st[0]
-        if k == "node":
-            t.add_node(name=st[1], site=st[2])
+        if k == "opts":
+            ids = bool(st[1].get("ids"))
+        elif k == "node":
+            t.add_node(name=st[1], site=st[2], node_id=nid("node", st[1]))
         elif k == "comp":
-            t.nodes[st[1]].add_component(name=st[2], model_type=NICS[st[3]])
+            t.nodes[st[1]].add_component(name=st[2], model_type=NICS[st[3]], node_id=nid("comp", st[1], st[2]))
         elif k == "child":
             p = t.nodes[st[1]].components[st[2]].interface_list[st[3]]
-            p.add_child_interface(name=st[4], labels=Labels(vlan=st[5]))
+            p.add_child_interface(name=st[4], labels=Labels(vlan=st[5]), node_id=nid("v", nidx.get(st[1]), st[2], st[3], st[4]))
         elif k == "facility":
             if st[3] == 1:
-                t.add_facility(name=st[1], site=st[2], labels=Labels(vlan="200"))
+                t.add_facility(name=st[1], site=st[2], labels=Labels(vlan="200"), node_id=nid("f", st[1]))
             else:
-                # add_facility(interfaces=[...]) with a caller-supplied node_id is a C07/C09 matter; no node_id here
-                t.add_facility(name=st[1], site=st[2], interfaces=[("%s-i%d" % (st[1], j), Labels(vlan=str(200 + j)), None)
-                                                                  for j in range(st[3])])
+                t.add_facility(name=st[1], site=st[2], node_id=nid("f", st[1]),
+                               interfaces=[("%s-i%d" % (st[1], j), Labels(vlan=str(200 + j)), None) for j in range(st[3])])
         elif k == "switch":
-            t.add_switch(name=st[1], site=st[2], nports=st[3])
+            t.add_switch(name=st[1], site=st[2], nports=st[3], node_id=nid("w", st[1]))
         elif k == "service":
-            b.svc[st[1]] = t.add_network_service(name=st[1], nstype=fu.ServiceType.L2Bridge,
+            b.svc[st[1]] = t.add_network_service(name=st[1], nstype=fu.ServiceType.L2Bridge, node_id=nid("s", st[1]),
                                                  interfaces=[resolve_if(b, x) for x in st[2]])
         elif k == "connect":
             b.svc[st[1]].connect_interface(resolve_if(b, st[2]))
         elif k == "peer":
             b.svc[st[1]].peer(b.svc[st[2]])
         elif k == "link":
-            t.add_link(name=st[1], ltype=fu.LinkType.L2Path, interfaces=[resolve_if(b, x) for x in st[2]])
+            t.add_link(name=st[1], ltype=fu.LinkType.L2Path, interfaces=[resolve_if(b, x) for x in st[2]], node_id=nid("l", st[1]))
         elif k == "mark":
             ri = ReservationInfo(reservation_state=PRUNE_STATE)
             if st[1] == "node":
@@ -448,6 +471,33 @@ def enumerate_ops(recipe):
                 ops.append(["unpeer", s, s2])
     if any(st[0] == "switch" for st in recipe) or True:
         ops.append(["prune"])
+    return ops
+
+
+def enumerate_name_ops(recipe):
+    """Calls whose name resolves to nothing, to an element of another class, or to a node of the wrong kind: each must
+    raise and change nothing.  Names of other classes that are equal to / prefixes of the addressed class are the point."""
+    ops = []
+    nodes = [st[1] for st in recipe if st[0] == "node"]
+    svcs = [st[1] for st in recipe if st[0] == "service"]
+    links = [st[1] for st in recipe if st[0] == "link"]
+    comps = [(st[1], st[2]) for st in recipe if st[0] == "comp"]
+    for nm in svcs[:1] + links[:1] + ["nope"]:
+        ops.append(["remove_node", nm, "__absent__"])
+        ops.append(["remove_facility", nm, "__absent__"])
+    for nm in nodes[:1] + links[:1] + ["nope"]:
+        ops.append(["remove_network_service", nm, "__absent__"])
+    for nm in nodes[:1] + svcs[:1] + ["nope"]:
+        ops.append(["remove_link", nm, "__absent__"])
+    for nm in nodes[:1]:
+        ops.append(["remove_switch", nm, "__absent__"])      # a VM is not a switch
+    for n, c in comps[:2]:
+        ops.append(["remove_component", n, c + "0", "__absent__"])
+        ops.append(["remove_component", n, n, "__absent__"])
+    for st in recipe:
+        if st[0] == "child":
+            ops.append(["remove_child", ["n", st[1], st[2], st[3]], st[4] + "0", "__absent__"])
+            break
     return ops
 
 
